@@ -6,7 +6,11 @@ import AmaranthVerif.Model.Expr
 Python integer and bit-sequence semantics, with the three documented deviations built in:
 `~` complements within the operand's shape, `//` and `%` by zero give 0, a part-select reads the
 sign bit (signed) or zero (unsigned) above the MSB — the latter is simply the floor shift of the
-exact integer. No implementation identifier occurs here.
+exact integer. The arithmetic is Lean's `Int`. Shared with the Model (and therefore characterised separately, in
+`Properties/C01.lean`, `spec_bitwise` / `spec_norm`, so that `rtl_exact` does not rest on both sides calling one
+function): the Python bitwise operators `pyAnd`/`pyOr`/`pyXor` (bit `k` of the result is the Boolean operation on
+bit `k` of the two's-complement operands), `norm` (the unique representative in the shape's range congruent modulo
+`2^width`) and `popcount`; `shapeOf` is the documented result shape (tied to the code by correspondence).
 -/
 
 namespace Amaranth
